@@ -257,3 +257,52 @@ Theorem C19_key_of_ignores_clocks :
   forall t : PosImpl.tabs, key_ignores_clocks (PosProofsA.key_of t).
 Proof. exact key_of_core. Qed.
 Print Assumptions C19_key_of_ignores_clocks.
+
+(** ---- Collision freedom discharged per tested book (design/12, item 11).
+    [NoColl] above is a hypothesis ([key_ignores_clocks] is discharged by C19_key_of_ignores_clocks).  The correspondence stream `book_model_vs_engine` (verifh
+    c19-cases) writes, for every generated collection, the coordinate tokens of the games and the
+    FENs of the positions the engine visited; CasesBook.book_case evaluates
+    [BookLegal.book_case_full_ok] = [book_case_ok] && [book_visited_case_ok] (marker `M = []`).
+    The theorems below say what a passed check means. *)
+Theorem C19_book_visited_case_ok_sound :
+  forall (games : list (list ostep)) (toks : list (list str)) (fens : list FenSpec.str),
+         book_visited_case_ok games toks fens = true ->
+         NoColl rkey (visited start_pos (map Some toks)) /\
+         map (fun t : list str => flat_map to_ostep (walk_pos rkey start_pos t)) toks = games /\
+         map FenSpec.parse fens = map Some (visited start_pos (map Some toks)).
+Proof. exact book_visited_case_ok_sound. Qed.
+
+(* C19_book_moves_legal_once_threaded for a checked collection: no collision hypothesis left *)
+Theorem C19_book_moves_legal_once_checked :
+  forall (games : list (list ostep)) (toks : list (list str)) (fens : list FenSpec.str)
+         (sched : list step) (b : nmap.Nmap entry),
+         book_visited_case_ok games toks fens = true ->
+         let gs := map Some toks in
+         let posof := posof_of rkey (visited start_pos gs) in
+         Interleave (map (game_steps_pos rkey start_pos) gs) sched ->
+         run (rkey start_pos) sched (init_book (rkey start_pos)) = Some b ->
+         forall (k : N) (e : entry),
+         base.lookup k b = Some e ->
+         (forall mv nk : N,
+          In (mv, nk) (succs e) ->
+          legal_at posof k mv /\ nk = succ_at rkey posof k mv /\ option.is_Some (base.lookup nk b)) /\
+         (forall (i j : nat) (mv n1 n2 : N),
+          nth_error (succs e) i = Some (mv, n1) -> nth_error (succs e) j = Some (mv, n2) -> i = j).
+Proof. exact book_moves_legal_once_checked. Qed.
+
+(* the whole per-collection check: root key, real book = specification of the recorded games
+   (C19_book_case_ok_sound), and the above *)
+Theorem C19_book_case_full_ok_parts :
+  forall (root : N) (games : list (list ostep)) (observed : list oentry) (toks : list (list str))
+         (fens : list FenSpec.str),
+         book_case_full_ok root games observed toks fens = true ->
+         rkey start_pos = root /\ book_case_ok root games observed = true /\
+         book_visited_case_ok games toks fens = true.
+Proof.
+  intros root games observed toks fens H. unfold book_case_full_ok in H.
+  apply andb_true_iff in H as [H H3]. apply andb_true_iff in H as [H1 H2]. apply N.eqb_eq in H1. auto.
+Qed.
+
+Print Assumptions C19_book_visited_case_ok_sound.
+Print Assumptions C19_book_moves_legal_once_checked.
+Print Assumptions C19_book_case_full_ok_parts.
